@@ -242,11 +242,20 @@ fn classify_known(b: &Built, cmds: &CmdOut, q: &GenQuery, wb: &str, observed: &B
                 rs.first().map(|(_, t)| *t)
             });
         }
-        if let Some(s) = st {
-            let by = interp::candidates_by_level(b, cmds, s, &q.cur);
-            let first: BTreeSet<String> = by.into_iter().next().map(|(_, s)| s).unwrap_or_default().into_iter().map(|c| interp::strip_wordbreaks(&q.cur, wb, &c)).collect();
-            if &first == observed {
-                return Some("F-truncated-word-accepted");
+        match st {
+            Some(s) => {
+                let by = interp::candidates_by_level(b, cmds, s, &q.cur);
+                let first: BTreeSet<String> = by.into_iter().next().map(|(_, s)| s).unwrap_or_default().into_iter().map(|c| interp::strip_wordbreaks(&q.cur, wb, &c)).collect();
+                if &first == observed {
+                    return Some("F-truncated-word-accepted");
+                }
+            }
+            // having accepted the truncated word the script stands in a state from which a later word of
+            // the line cannot be read: it offers nothing (the same finding, one word later)
+            None => {
+                if observed.is_empty() {
+                    return Some("F-truncated-word-accepted");
+                }
             }
         }
     }
